@@ -29,7 +29,7 @@ def spelled(rnd, t, b, allow_translucent=True):
     tk, tsp = tks[rnd.randrange(len(tks))]
     bk, bsp = bks[rnd.randrange(len(bks))]
     if allow_translucent and rnd.random() < 0.12:
-        kind = rnd.choice(SP.TRANSLUCENT_KINDS)
+        kind = rnd.choice(SP.TRANSLUCENT_KINDS + SP.TRANSLUCENT_KINDS_X)
         sp = SP.spell_translucent(tuple(t), rnd.choice(["0.5", "0.8", "0.25", "1", "0.93"]), kind)
         if sp is not None:
             tsp = sp
